@@ -21,7 +21,7 @@ Extraction "model.ml"
   Frame.fc_adr Frame.fc_adr_ack_req Frame.fc_ack Frame.fc_f_pending Frame.fc_f_opts_len
   Frame.ja_join_nonce Frame.ja_net_id Frame.ja_dev_addr Frame.ja_dl_settings Frame.ja_rx_delay Frame.ja_c_f_list
   Bytes.le_value Bytes.le_bytes
-  MacCmd.fixed_new MacCmd.mcstatus_new MacCmd.mcstatus_mask MacCmd.mcstatus_total MacCmd.mcstatus_items
+  MacCmd.chmask_new MacCmd.fixed_new MacCmd.mcstatus_new MacCmd.mcstatus_mask MacCmd.mcstatus_total MacCmd.mcstatus_items
   MacCmd.parse_all CmdTables.dl_mac_table CmdTables.ul_mac_table CmdTables.dl_dut_table CmdTables.ul_dut_table
   CmdTables.dl_mc_table CmdTables.ul_mc_table
   MacFields.cr_new MacFields.mc_set MacFields.mc_build MacFields.mc_get MacFields.to_hex_msb MacFields.from_hex_msb
